@@ -36,6 +36,12 @@ CHECKS = {
         "assumptions": WALK_ASSUME + ["panics inside unmodelled stdlib calls and the Go runtime are outside the theorem (partial): every call of the streams runs under recover and a panic is compared with the model's (panic-free) answer"],
         "explanation": "theorems C13_total_struct/var/map/url: for every configuration, value tree, rule text (arbitrary bytes) and residual answer the model never ends in a modelled panic (slice expressions of in/re are modelled with Go's bounds checks and shown safe under the code's guards); streams feed nil / typed-nil / wrong-kind inputs and malformed rule text",
     },
+    "C15": {
+        "modules": ["PGV.Props.C15"], "audits": ["PGV/Audit/C15.lean"],
+        "streams": ["explain", "flat", "walk"], "thorough_seeds": 4,
+        "assumptions": WALK_ASSUME + ["C15_extract is stated for clean clause lists: no clause contains ErrEndFlag and the first label in a clause is its own (decidable; evaluated per case, violations of it are reported as out of scope)"],
+        "explanation": "C15_extract: for EVERY list of clean clauses (any mix/order/length) GetOnlyExplainErr(render cs) = the explanations of the labelled clauses joined by ErrEndFlag; C15_message_verbatim: the clause of a violated rule with a custom message is path + input + label + message verbatim; stream explain feeds synthetic clause lists and real validation errors to GetOnlyExplainErr, walk/flat compare every clause text (30% custom messages, ASCII/CJK/one-rune)",
+    },
     "C16": {
         "modules": ["PGV.Props.C16"], "audits": ["PGV/Audit/C16.lean"],
         "streams": ["walk-rm", "walk"], "thorough_seeds": 4,
@@ -116,6 +122,11 @@ MANIFEST_TEXT = {
         "technique": "Lean 4 totality theorems (mutual structural induction over value trees, induction over rule lists) + differential correspondence under recover",
         "text": "Theorems: for EVERY configuration, value tree (any depth), rule text (arbitrary bytes) and residual answer, Struct/Var/Map/Url of the model never end in a modelled panic (C13_total_*), nor does any function of the rule table (C13_total_rules); the slice expressions of in/include and re are modelled with Go's bounds checks and proved safe under the code's guards; entry guards for nil, typed nil, non-map, nil *string are equations. Partial: panics inside unmodelled stdlib calls / the runtime are outside the theorem; the streams run every call under recover with nil, typed-nil, wrong-kind inputs and malformed rule text.",
         "note": "Trusted: Lean kernel; which operations can panic is a reading of the Go code (slice expressions, reflect on invalid values) transcribed in the model; correspondence.",
+    },
+    "C15": {
+        "technique": "Lean 4 theorems (split/join inverse for the two-byte separator, first-label lemma; clause builder equations) + differential correspondence",
+        "text": "Theorems: C15_extract — for every list of clean clauses, of any length and in any mix and order of 说明:-labelled, explain:-labelled and unlabelled clauses, the model of GetOnlyExplainErr returns exactly the explanations of the labelled clauses, in order, joined by ErrEndFlag (it never fails: the one slice expression is clamped); C15_label_choice / C15_message_verbatim / C15_default_text — a violated rule with a custom message yields path + input + label + the message verbatim (label 说明: iff the message has a rune in U+4E00..U+9FA5), without one the default wording behind explain:. Tie: stream explain (synthetic clause lists + error strings of real validations), walk and flat (whole error strings, custom messages on every rule family).",
+        "note": "Trusted: Lean kernel; strings.Split for \"; \" and strings.Index transcribed; that every rule function builds its clause through violClause is read off the model and checked by correspondence (per-rule), not stated as one theorem.",
     },
     "C16": {
         "technique": "Lean 4 theorems (rule-set selection, effective rule, function resolution) + differential correspondence",
